@@ -357,7 +357,7 @@ def announces_other_version(cname, bs, v):
 CONVERTED = {}       # class -> {tag of an item that is converted to a plain list after decoding (Attributes -> [Attribute])}
 
 
-def empty_converted_item(cname, bs):
+def empty_converted_item(cname, bs, obj=None):
     """the structure contains, at top level, an EMPTY structure where the reader converts the decoded Attributes into a
     Python list: `[]` is then indistinguishable from an absent field (the writers drop it or refuse it)"""
     tags = CONVERTED.get(cname)
@@ -367,14 +367,17 @@ def empty_converted_item(cname, bs):
     while pos + 8 <= len(b):
         t = int.from_bytes(b[pos:pos + 3], 'big')
         ln = struct.unpack('!I', b[pos + 4:pos + 8])[0]
-        if t in tags and b[pos + 3] == 1 and ln == 0:
-            return True
+        if t in tags and b[pos + 3] == 1:
+            if ln == 0:
+                return True
+            if obj is not None and any(getattr(obj, '_' + f, None) == [] for f in tags[t]):
+                return True           # a structure with a wrong length field that still decoded to an empty list
         pos += 8 + ln + ((8 - ln % 8) % 8 if b[pos + 3] != 1 else 0)
     return False
 
 
 def scase(v, tag, cname, bs, obj, rest, rew):
-    if announces_other_version(cname, bs, v) or empty_converted_item(cname, bs):
+    if announces_other_version(cname, bs, v) or empty_converted_item(cname, bs, obj):
         return None
     if obj is not None and key_outside_table(obj):
         return None
@@ -407,7 +410,10 @@ def struct_cases(ctx, doc, oracle, only=None):
                 KEY_TABLES.setdefault(cdoc['name'], []).append(('tags:' + it['field'], {r[0] for r in (doc.get('tables') or {}).get(it['kind'][1], {}).get('rows', [])}))
     CONVERTED.clear()
     for cdoc in doc['classes']:
-        tg = {it['tag'] for it in cdoc['rd'] if it.get('converted') and it['kind'][0] == 'struct'}
+        tg = {}
+        for it in cdoc['rd']:
+            if it.get('converted') and it['kind'][0] == 'struct':
+                tg.setdefault(it['tag'], set()).add(it['field'])
         if tg:
             CONVERTED[cdoc['name']] = tg
     REBIND.clear()
